@@ -103,6 +103,8 @@ pub struct SimUtxo {
     pub address: Vec<u8>,
     pub value: Value,
     pub datum: Option<tir::Expression>,
+    /// a reference script sitting in the UTxO (any UTxO may carry one)
+    pub script: Option<tir::Expression>,
 }
 
 impl SimUtxo {
@@ -112,7 +114,7 @@ impl SimUtxo {
             address: self.address.clone(),
             assets: assets_from_value(&self.value),
             datum: self.datum.clone(),
-            script: None,
+            script: self.script.clone(),
         }
     }
 }
@@ -145,6 +147,7 @@ impl SimChain {
                 address,
                 value,
                 datum,
+                script: None,
             },
         );
         k
